@@ -425,6 +425,151 @@ func firstDiff(a, b string) string {
 	return fmt.Sprintf("got …%s… want …%s…", cut(a), cut(b))
 }
 
+// ---- expectation from the reference model, directly -----------------------------------------------------
+//
+// "a successful edit is what subsequent reads return", "exactly the fields present", without any code of the
+// repository in the oracle: every field of the reference state is contained in the read of its section (global,
+// path defaults, path), and every field of a path read that the reference path does not set equals the same
+// field of the path defaults read. Containment: scalars equal, lists of equal length with contained elements,
+// objects field by field (the implementation may complete a structure with defaulted members).
+
+func parseRead(s string) (int, map[string]any) {
+	st := 0
+	_, _ = fmt.Sscanf(s, "%d", &st)
+	i := strings.IndexByte(s, ' ')
+	if i < 0 {
+		return st, nil
+	}
+	d := json.NewDecoder(strings.NewReader(s[i+1:]))
+	d.UseNumber()
+	var v map[string]any
+	if d.Decode(&v) != nil {
+		return st, nil
+	}
+	return st, v
+}
+
+func contains(want, got any) bool {
+	switch w := want.(type) {
+	case nil:
+		g, ok := got.([]any)
+		return got == nil || (ok && len(g) == 0)
+	case map[string]any:
+		g, ok := got.(map[string]any)
+		if !ok {
+			return false
+		}
+		for k, v := range w {
+			gv, ok := g[k]
+			if !ok || !contains(v, gv) {
+				return false
+			}
+		}
+		return true
+	case []any:
+		if got == nil && len(w) == 0 {
+			return true
+		}
+		g, ok := got.([]any)
+		if !ok || len(g) != len(w) {
+			return false
+		}
+		for i := range w {
+			if !contains(w[i], g[i]) {
+				return false
+			}
+		}
+		return true
+	}
+	a, _ := json.Marshal(want)
+	b, _ := json.Marshal(got)
+	return string(a) == string(b)
+}
+
+func decodeField(raw json.RawMessage) any {
+	d := json.NewDecoder(bytes.NewReader(raw))
+	d.UseNumber()
+	var v any
+	_ = d.Decode(&v)
+	return v
+}
+
+func sortedFieldNames(f fields) []string {
+	var out []string
+	for k := range f {
+		out = append(out, k)
+	}
+	sort.Strings(out)
+	return out
+}
+
+func echoSection(f fields, got map[string]any) string {
+	for _, k := range sortedFieldNames(f) {
+		gv, ok := got[k]
+		if !ok {
+			return fmt.Sprintf("field %s was set to %s, the read does not have it", k, f[k])
+		}
+		if !contains(decodeField(f[k]), gv) {
+			b, _ := json.Marshal(gv)
+			return fmt.Sprintf("field %s was set to %s, the read returns %s", k, f[k], c12short(string(b), 200))
+		}
+	}
+	return ""
+}
+
+// echoDiff returns the first read endpoint that does not return the reference state m, "" if all do.
+func echoDiff(m *Model, reads map[string]string) (string, string) {
+	ep := "/v3/config/global/get"
+	st, g := parseRead(reads[ep])
+	if st != 200 || g == nil {
+		return ep, "not a 200 answer with a JSON object: " + c12short(reads[ep], 120)
+	}
+	if d := echoSection(m.Global, g); d != "" {
+		return ep, d
+	}
+	ep = "/v3/config/pathdefaults/get"
+	st, defs := parseRead(reads[ep])
+	if st != 200 || defs == nil {
+		return ep, "not a 200 answer with a JSON object: " + c12short(reads[ep], 120)
+	}
+	if d := echoSection(m.Defaults, defs); d != "" {
+		return ep, d
+	}
+	for _, n := range pathNames {
+		ep = "/v3/config/paths/get/" + url.PathEscape(n)
+		st, p := parseRead(reads[ep])
+		f, ok := m.Paths[n]
+		if !ok {
+			if st != 404 {
+				return ep, fmt.Sprintf("the path does not exist, status %d", st)
+			}
+			continue
+		}
+		if st != 200 || p == nil {
+			return ep, "the path exists, the read is not a 200 answer with a JSON object: " + c12short(reads[ep], 120)
+		}
+		if d := echoSection(f, p); d != "" {
+			return ep, d
+		}
+		var keys []string
+		for k := range p {
+			keys = append(keys, k)
+		}
+		sort.Strings(keys)
+		for _, k := range keys {
+			if _, set := f[k]; set || k == "name" {
+				continue
+			}
+			a, _ := json.Marshal(normalize(p[k]))
+			b, _ := json.Marshal(normalize(defs[k]))
+			if string(a) != string(b) {
+				return ep, fmt.Sprintf("field %s is not set on the path: the read returns %s, the path defaults have %s", k, a, b)
+			}
+		}
+	}
+	return "", ""
+}
+
 func epClass(ep string) string {
 	switch {
 	case strings.Contains(ep, "/global/"):
@@ -610,6 +755,11 @@ func (w *workerState) run(job *Job) *JobResult {
 				addViol(i, op.Kind+"/accepted-running-conf-differs",
 					"after the accepted edit, the running configuration is not the edited configuration: "+hist,
 					firstDiff(canonText(post.Snap), canonText(exp.snap)))
+			} else if ep, d := echoDiff(cand, post.Reads); ep != "" {
+				// the same sentence of the statement judged without conf.Load (which shares the merge code with the
+				// API edits): the fields of the reference state must come back from the reads
+				addViol(i, op.Kind+"/accepted-"+epClass(ep)+"-lacks-edited-field",
+					fmt.Sprintf("after the accepted edit, GET %s does not return the fields that were set: %s", ep, hist), d)
 			}
 		} else {
 			// a failed (or wrongly accepted) edit leaves the running configuration unchanged
@@ -673,6 +823,7 @@ func (w *workerState) run(job *Job) *JobResult {
 var fieldDefaults = map[string]string{
 	"readTimeout": `"10s"`, "logLevel": `"info"`, "writeQueueSize": `512`,
 	"maxReaders": `0`, "record": `false`, "sourceOnDemand": `false`, "recordDeleteAfter": `"24h"`,
+	"udpMaxPayloadSize": `1452`, "apiAllowOrigins": `["*"]`, "rtspUDPSourcePortRange": `[32768,60999]`,
 }
 
 // inverse returns the edit that leads from after (= before + op) back to before, if there is one in the API.
